@@ -57,6 +57,35 @@ impl Which {
 struct V {
     which: Which,
     events: usize,
+    /// One long deterministic history (device decisions from a fixed pseudo-random sequence)
+    /// instead of explored deviations: reaches the 16-bit wrap of the ring indices.
+    linear: bool,
+}
+
+thread_local! {
+    static LCG: std::cell::Cell<u64> = const { std::cell::Cell::new(0) };
+}
+
+/// A device decision: explored (deviation-bounded) or, in a linear run, taken from a fixed
+/// sequence that favours the default.
+fn decide(linear: bool, n: usize, label: &'static str) -> usize {
+    if !linear {
+        return deviate(n, label);
+    }
+    if n <= 1 {
+        return 0;
+    }
+    LCG.with(|l| {
+        let x = l.get().wrapping_mul(6364136223846793005).wrapping_add(1442695040888963407);
+        l.set(x);
+        let r = (x >> 33) as usize;
+        // Half of the decisions are the default, the others spread over the alternatives.
+        if r & 1 == 0 {
+            0
+        } else {
+            (r >> 1) % n
+        }
+    })
 }
 
 /// An event as written by the device: bytes and the token of the buffer used.
@@ -104,6 +133,8 @@ impl TransportVisitor for V {
     type Out = ();
     fn visit<T: Transport + 'static>(self, t: T, w: &DWorld) {
         let which = self.which;
+        let linear = self.linear;
+        LCG.with(|l| l.set(0x5eed_0000 + self.events as u64));
         let q = which.queue();
         let qs = which.qsize();
         let co: CoRc = CoDevice::new(w.dev.clone(), cosim::zero_responder(which.kind()));
@@ -133,17 +164,17 @@ impl TransportVisitor for V {
             // The device completes a burst of posted buffers.
             let posted = co.borrow_mut().held_count(q);
             let maxb = posted.min(self.events - delivered).max(1);
-            let burst = 1 + deviate(maxb, "burst size (default 1)");
+            let burst = 1 + decide(linear, maxb, "burst size (default 1)");
             for _ in 0..burst {
                 let posted = co.borrow_mut().held_count(q);
                 if posted == 0 {
                     viol("starved", "no buffer posted although events remain to be delivered".into());
                     break;
                 }
-                let j = deviate(posted, "which posted buffer the device uses (default: oldest)");
+                let j = decide(linear, posted, "which posted buffer the device uses (default: oldest)");
                 let lenc = match which {
-                    Which::VsockRx => deviate(5, "written length (default: full)"),
-                    Which::Sound => deviate(3, "written length (default: full)"),
+                    Which::VsockRx => decide(linear, 5, "written length (default: full)"),
+                    Which::Sound => decide(linear, 3, "written length (default: full)"),
                     Which::Input => 0,
                 };
                 seq += 1;
@@ -269,6 +300,14 @@ impl TransportVisitor for V {
                 }
             }
             obs(seq as u64);
+            if linear && seq % 256 == 0 {
+                // Keep the ledger and the device-side log small in long runs.
+                hal::with(|h| h.compact());
+                co.borrow_mut().served.clear();
+            }
+        }
+        if linear {
+            tag("linear-run-completed");
         }
         let posted = co.borrow_mut().held_count(q);
         if posted != qs && !crate::engine::chooser::has_violation() {
@@ -284,11 +323,21 @@ impl TransportVisitor for V {
 }
 
 pub fn run(tkind: TKind, which: Which, events: usize) {
+    run_mode(tkind, which, events, false)
+}
+
+/// One long history per feature set: more than 65 536 events, so that the available and used
+/// indices of the stocked queue wrap around while buffers keep being recycled.
+pub fn run_linear(tkind: TKind, which: Which, events: usize) {
+    run_mode(tkind, which, events, true)
+}
+
+fn run_mode(tkind: TKind, which: Which, events: usize, linear: bool) {
     hal::reset();
     let feats = [F_VERSION_1, F_VERSION_1 | F_INDIRECT | F_EVENT_IDX];
     let offered = feats[choose(feats.len(), "offered features")];
     let kind = which.kind();
     let w = DWorld::new(kind, tkind, offered, kind.default_config());
-    w.with_transport(V { which, events });
+    w.with_transport(V { which, events, linear });
     mmio::set_handler(None);
 }
